@@ -96,7 +96,7 @@ fn write_all(q: &Q) -> Result<anyhow::Result<Vec<u8>>, PanicInfo> { guard(|| { l
 fn write_one(q: &Q, file: &str) -> Result<anyhow::Result<Vec<u8>>, PanicInfo> { guard(|| { let mut v = vec![]; quill::enigma_file::write_one(q, file, &mut v)?; Ok(v) }) }
 fn fresh(m: &Maps) -> anyhow::Result<Q> { Ok(Mappings { info: quill::tree::mappings::MappingInfo { namespaces: namespaces_to_quill::<2, ()>(m)? }, classes: Default::default(), javadoc: None }) }
 fn read_texts(m: &Maps, texts: &[&[u8]]) -> Result<anyhow::Result<Q>, PanicInfo> {
-    guard(|| { let mut q = fresh(m)?; for t in texts { quill::enigma_file::read_into(*t, &mut q)?; } Ok(q) })
+    guard(|| { let mut q = fresh(m)?; for t in texts { if common::rng::fnv(t) % 3 == 0 { quill::enigma_file::read_into(common::io::ChunkedReader::new(t, common::rng::fnv(t), 1 + t.len() % 11), &mut q)?; } else { quill::enigma_file::read_into(*t, &mut q)?; } } Ok(q) })
 }
 
 fn settle<T>(rep: &mut Report, api: &str, what_err: &str, detail: &dyn Fn() -> Value, r: Result<anyhow::Result<T>, PanicInfo>) -> Option<T> {
